@@ -1,1 +1,241 @@
-//! helpers around hash objects (filled in later)
+//! Uniform view of the six hash types for the enumeration checks.
+
+use ssdeep::{
+    DualFuzzyHash, FuzzyHash, FuzzyHashOperationError, LongDualFuzzyHash, LongFuzzyHash,
+    LongRawFuzzyHash, ParseError, RawFuzzyHash,
+};
+use std::fmt::Debug;
+use std::hash::{Hash, Hasher};
+
+/// The four plain variants.
+pub trait Plain: Sized + Copy + Debug + Eq + Ord + Hash + std::fmt::Display + Send + Sync {
+    const NAME: &'static str;
+    const CAP2: usize;
+    const NORM: bool;
+    const MAX_LEN_IN_STR: usize;
+    fn parse_bytes(b: &[u8]) -> Result<Self, ParseError>;
+    fn parse_bytes_idx(b: &[u8], i: &mut usize) -> Result<Self, ParseError>;
+    fn parse_str(s: &str) -> Result<Self, ParseError>;
+    fn empty() -> Self;
+    fn near_raw(log: u8, bh1: &[u8], bh2: &[u8]) -> Self;
+    fn from_internals(bs: u32, bh1: &[u8], bh2: &[u8]) -> Self;
+    fn log(&self) -> u8;
+    fn block_size(&self) -> u32;
+    fn bh1(&self) -> &[u8];
+    fn bh2(&self) -> &[u8];
+    fn bh1_arr(&self) -> &[u8];
+    fn bh2_arr(&self) -> &[u8];
+    fn bh1_len(&self) -> usize;
+    fn bh2_len(&self) -> usize;
+    fn valid(&self) -> bool;
+    fn full_eq(&self, o: &Self) -> bool;
+    fn string(&self) -> String;
+    fn into_string(self) -> String;
+    fn store(&self, buf: &mut [u8]) -> Result<usize, FuzzyHashOperationError>;
+    fn len_in_str(&self) -> usize;
+    fn is_normalized(&self) -> bool;
+    fn normalize_in_place(&mut self);
+    fn clone_normalized(&self) -> Self;
+    /// validity computed from public accessors only (reference predicate)
+    fn ref_valid(&self) -> bool {
+        refmodel::plain_valid(self.log(), self.bh1_arr(), self.bh1_len(), self.bh2_arr(), self.bh2_len(), Self::NORM)
+    }
+}
+
+macro_rules! impl_plain {
+    ($ty:ty, $name:expr, $cap2:expr, $norm:expr) => {
+        impl Plain for $ty {
+            const NAME: &'static str = $name;
+            const CAP2: usize = $cap2;
+            const NORM: bool = $norm;
+            const MAX_LEN_IN_STR: usize = <$ty>::MAX_LEN_IN_STR;
+            fn parse_bytes(b: &[u8]) -> Result<Self, ParseError> {
+                <$ty>::from_bytes(b)
+            }
+            fn parse_bytes_idx(b: &[u8], i: &mut usize) -> Result<Self, ParseError> {
+                <$ty>::from_bytes_with_last_index(b, i)
+            }
+            fn parse_str(s: &str) -> Result<Self, ParseError> {
+                s.parse::<$ty>()
+            }
+            fn empty() -> Self {
+                <$ty>::new()
+            }
+            fn near_raw(log: u8, bh1: &[u8], bh2: &[u8]) -> Self {
+                <$ty>::new_from_internals_near_raw(log, bh1, bh2)
+            }
+            fn from_internals(bs: u32, bh1: &[u8], bh2: &[u8]) -> Self {
+                <$ty>::new_from_internals(bs, bh1, bh2)
+            }
+            fn log(&self) -> u8 {
+                self.log_block_size()
+            }
+            fn block_size(&self) -> u32 {
+                <$ty>::block_size(self)
+            }
+            fn bh1(&self) -> &[u8] {
+                self.block_hash_1()
+            }
+            fn bh2(&self) -> &[u8] {
+                self.block_hash_2()
+            }
+            fn bh1_arr(&self) -> &[u8] {
+                &self.block_hash_1_as_array()[..]
+            }
+            fn bh2_arr(&self) -> &[u8] {
+                &self.block_hash_2_as_array()[..]
+            }
+            fn bh1_len(&self) -> usize {
+                self.block_hash_1_len()
+            }
+            fn bh2_len(&self) -> usize {
+                self.block_hash_2_len()
+            }
+            fn valid(&self) -> bool {
+                self.is_valid()
+            }
+            fn full_eq(&self, o: &Self) -> bool {
+                <$ty>::full_eq(self, o)
+            }
+            fn string(&self) -> String {
+                <$ty>::to_string(self)
+            }
+            fn into_string(self) -> String {
+                String::from(self)
+            }
+            fn store(&self, buf: &mut [u8]) -> Result<usize, FuzzyHashOperationError> {
+                self.store_into_bytes(buf)
+            }
+            fn len_in_str(&self) -> usize {
+                <$ty>::len_in_str(self)
+            }
+            fn is_normalized(&self) -> bool {
+                <$ty>::is_normalized(self)
+            }
+            fn normalize_in_place(&mut self) {
+                <$ty>::normalize_in_place(self)
+            }
+            fn clone_normalized(&self) -> Self {
+                <$ty>::clone_normalized(self)
+            }
+        }
+    };
+}
+impl_plain!(RawFuzzyHash, "RawFuzzyHash", 32, false);
+impl_plain!(LongRawFuzzyHash, "LongRawFuzzyHash", 64, false);
+impl_plain!(FuzzyHash, "FuzzyHash", 32, true);
+impl_plain!(LongFuzzyHash, "LongFuzzyHash", 64, true);
+
+/// The two dual variants.
+pub trait Dual: Sized + Copy + Debug + Eq + Ord + Hash + Send + Sync {
+    type Raw: Plain;
+    type Norm: Plain;
+    const NAME: &'static str;
+    const CAP2: usize;
+    fn parse_bytes(b: &[u8]) -> Result<Self, ParseError>;
+    fn parse_bytes_idx(b: &[u8], i: &mut usize) -> Result<Self, ParseError>;
+    fn parse_str(s: &str) -> Result<Self, ParseError>;
+    fn empty() -> Self;
+    fn from_raw(r: &Self::Raw) -> Self;
+    fn init_from_raw(&mut self, r: &Self::Raw);
+    fn from_norm(n: &Self::Norm) -> Self;
+    fn near_raw(log: u8, bh1: &[u8], bh2: &[u8]) -> Self;
+    fn from_internals(bs: u32, bh1: &[u8], bh2: &[u8]) -> Self;
+    fn to_raw(&self) -> Self::Raw;
+    fn into_mut_raw(&self, dst: &mut Self::Raw);
+    fn to_raw_string(&self) -> String;
+    fn to_norm_string(&self) -> String;
+    fn as_norm(&self) -> &Self::Norm;
+    fn to_norm(&self) -> Self::Norm;
+    fn valid(&self) -> bool;
+    fn is_normalized(&self) -> bool;
+    fn normalize_in_place(&mut self);
+    fn log(&self) -> u8;
+}
+
+macro_rules! impl_dual {
+    ($ty:ty, $raw:ty, $norm:ty, $name:expr, $cap2:expr) => {
+        impl Dual for $ty {
+            type Raw = $raw;
+            type Norm = $norm;
+            const NAME: &'static str = $name;
+            const CAP2: usize = $cap2;
+            fn parse_bytes(b: &[u8]) -> Result<Self, ParseError> {
+                <$ty>::from_bytes(b)
+            }
+            fn parse_bytes_idx(b: &[u8], i: &mut usize) -> Result<Self, ParseError> {
+                <$ty>::from_bytes_with_last_index(b, i)
+            }
+            fn parse_str(s: &str) -> Result<Self, ParseError> {
+                s.parse::<$ty>()
+            }
+            fn empty() -> Self {
+                <$ty>::new()
+            }
+            fn from_raw(r: &$raw) -> Self {
+                <$ty>::from_raw_form(r)
+            }
+            fn init_from_raw(&mut self, r: &$raw) {
+                self.init_from_raw_form(r)
+            }
+            fn from_norm(n: &$norm) -> Self {
+                <$ty>::from_normalized(n)
+            }
+            fn near_raw(log: u8, bh1: &[u8], bh2: &[u8]) -> Self {
+                <$ty>::new_from_internals_near_raw(log, bh1, bh2)
+            }
+            fn from_internals(bs: u32, bh1: &[u8], bh2: &[u8]) -> Self {
+                <$ty>::new_from_internals(bs, bh1, bh2)
+            }
+            fn to_raw(&self) -> $raw {
+                self.to_raw_form()
+            }
+            fn into_mut_raw(&self, dst: &mut $raw) {
+                self.into_mut_raw_form(dst)
+            }
+            fn to_raw_string(&self) -> String {
+                self.to_raw_form_string()
+            }
+            fn to_norm_string(&self) -> String {
+                self.to_normalized_string()
+            }
+            fn as_norm(&self) -> &$norm {
+                self.as_normalized()
+            }
+            fn to_norm(&self) -> $norm {
+                self.to_normalized()
+            }
+            fn valid(&self) -> bool {
+                self.is_valid()
+            }
+            fn is_normalized(&self) -> bool {
+                <$ty>::is_normalized(self)
+            }
+            fn normalize_in_place(&mut self) {
+                <$ty>::normalize_in_place(self)
+            }
+            fn log(&self) -> u8 {
+                self.log_block_size()
+            }
+        }
+    };
+}
+impl_dual!(DualFuzzyHash, RawFuzzyHash, FuzzyHash, "DualFuzzyHash", 32);
+impl_dual!(LongDualFuzzyHash, LongRawFuzzyHash, LongFuzzyHash, "LongDualFuzzyHash", 64);
+
+/// Hasher that records exactly what is written to it (deterministic; no RandomState).
+#[derive(Default)]
+pub struct RecordingHasher(pub Vec<u8>);
+impl Hasher for RecordingHasher {
+    fn finish(&self) -> u64 {
+        crate::common::h64(&self.0)
+    }
+    fn write(&mut self, bytes: &[u8]) {
+        self.0.extend_from_slice(bytes);
+    }
+}
+pub fn hash_stream<T: Hash>(v: &T) -> Vec<u8> {
+    let mut h = RecordingHasher::default();
+    v.hash(&mut h);
+    h.0
+}
